@@ -1,21 +1,29 @@
 #!/venv/bin/python
-"""usage: tools/seed_run.py <seeded dir name> [check id] [--tier quick|thorough]
+"""usage: tools/seed_run.py <seeded dir name> [check id] [--tier quick|thorough] [--repo DIR]
 Apply /verif/seeded/<name>/patch.diff to /repo, run ./check <ID>, undo the patch straight afterwards, and record
-in meta.json whether the check reported the violation."""
+in meta.json whether the check reported the violation.  With --repo DIR (a clean scratch checkout of chi outside
+/repo and /verif) the patch is applied there instead, the check imports chi from DIR and skips the proof build
+(development aid while /repo is busy)."""
 import json, os, subprocess, sys
 name = sys.argv[1]
 pid = sys.argv[2] if len(sys.argv) > 2 and not sys.argv[2].startswith('--') else name.split('-')[0]
 tier = sys.argv[sys.argv.index('--tier') + 1] if '--tier' in sys.argv else 'quick'
 d = '/verif/seeded/' + name
-assert subprocess.run('git -C /repo status --porcelain -- chi', shell=True, capture_output=True, text=True).stdout.strip() == '', 'repo dirty'
+REPO = sys.argv[sys.argv.index('--repo') + 1] if '--repo' in sys.argv else '/repo'
+assert subprocess.run('git -C %s status --porcelain -- chi' % REPO, shell=True, capture_output=True, text=True).stdout.strip() == '', 'repo dirty'
 ev = '/verif/evidence/%s.json' % pid
 saved = open(ev).read() if os.path.exists(ev) else None
-subprocess.run('git -C /repo apply %s/patch.diff' % d, shell=True, check=True)
+subprocess.run('git -C %s apply %s/patch.diff' % (REPO, d), shell=True, check=True)
 try:
-    p = subprocess.run('./check %s --tier %s' % (pid, tier), shell=True, cwd='/verif', stdout=subprocess.PIPE,
+    cmd = './check %s --tier %s' % (pid, tier)
+    env = dict(os.environ)
+    if REPO != '/repo':
+        cmd = '/venv/bin/python -W ignore harness/main.py %s --tier %s --no-proofs' % (pid, tier)
+        env.update(PYTHONPATH='%s:/verif' % REPO, PYTHONHASHSEED='0', CHI_VERIF='1', PYTHONWARNINGS='ignore')
+    p = subprocess.run(cmd, shell=True, cwd='/verif', stdout=subprocess.PIPE, env=env,
                        stderr=subprocess.STDOUT, text=True, timeout=7200)
 finally:
-    subprocess.run('git -C /repo checkout -- chi', shell=True, check=True)
+    subprocess.run('git -C %s checkout -- chi' % REPO, shell=True, check=True)
     if saved is not None:
         open(ev, 'w').write(saved)   # evidence of a seeded run is never kept
 viol = [l for l in p.stdout.splitlines() if l.startswith('VIOLATION')]
